@@ -164,11 +164,17 @@ CLAIMED = {
     "C01": dict(
         text="Lean 4 theorem global_balance_identity (any ordered field, any number of factors, all three lifting schemes): per unit, "
              "probability inflow into the lifted state minus outflow equals -beta times the sum of the factor derivatives (the transport "
-             "term), assembled from C05's flow balance; thinned_rate. Tie to the code: the kernel correspondences of C02, C03, C04, C05, "
+             "term), assembled from C05's flow balance; thinned_rate. JF.Props.C01Generator: infinitesimal stationarity - for the generator L of "
+             "the lifted, factorised event-chain process (transport + jump part with the lifting probabilities of C05's three schemes, also "
+             "with thinning against a dominating bound), sum_k I(exp(-beta U) * (L f)(.,k)) = 0 for all test functions f "
+             "(boltzmann_stationary_generator, from the balance identity, prob_row_sum and integration by parts); integration by parts "
+             "discharged for two concrete instances (pair on a circle, pair on a torus: circle_pair_stationary, torus_pair_stationary, "
+             "cosine energies as non-vacuity). Tie to the code: the kernel correspondences of C02, C03, C04, C05, "
              "C18 are re-run inside this check; run level: every exponential energy budget of real runs is drawn at the setting's beta. "
              "Failing-history search: real runs of the small shipped systems (all algorithmic variants), observables recomputed from "
              "the recorded sampled states, Kolmogorov-Smirnov against the repository's reference CDFs and between variants.",
-        note="PARTIAL by nature: the step from the balance identity to stationarity/ergodicity/convergence of histograms is not formalised "
+        note="PARTIAL by nature: the generator-level (infinitesimal) stationarity of exp(-beta U) x uniform is proved; the step from there to "
+             "invariance of the measure under the semigroup of the piecewise-deterministic process, ergodicity and convergence of histograms is not formalised "
              "and cannot be decided by this technique (DESIGN §10); the statistical comparison is supporting evidence (a search for a "
              "failing history with loose thresholds), never a proof.",
         technique="Lean 4 proof of the balance identity + kernel correspondences + statistical failing-history search",
@@ -211,7 +217,10 @@ CLAIMED = {
              "cell wirings, none for the two without cells). For composite objects without a cell system (the five dipole wirings, water/single_molecule, ...) "
              "FootprintsSound is proved as well (JF/Props/Footprints2.lean: footprintsSound_concrete2 over the two-level machine, C10's factor "
              "maps and E13's kind map; fresh_concrete2, clause_h_concrete2; tie: harness/fpcorr2.py compares what the real taggers yield "
-             "with the world's yields on every recorded leg) under the mode premise that ModeDiscipline concludes from the activation flags; "
+             "with the world's yields on every recorded leg) under the mode premise that ModeDiscipline concludes from the activation flags; that premise is discharged "
+             "along the run by the joint induction of JF/Props/SystemInv2.lean (joint_inv2, c09_fresh_closed2 / c09_fresh_every_leg2: pending = fresh at every leg of "
+             "every run of the five shipped dipole wirings without cells and water/single_molecule, no no-tie hypothesis; its step-relation hypotheses are measured "
+             "by harness/sysinvcorr.check_trace2, modecorr and fpcorr2); "
              "it stays a hypothesis (tables written by hand, validated on runs) for composite objects WITH a cell system. Pool sizes (clause i) are not derived: "
              "exhaustion is an explicit error outcome in model and code and is reported by the oracle.",
         technique="Lean 4 proof over a hand-written activator model + generated decidable obligations per .ini + trace replay + run-level oracle",
@@ -306,7 +315,11 @@ CLAIMED = {
              "asserts plus the one-chain fact of C07. The mode discipline of the event-kind sequence (leaf/root mode) that C12Chain needs is "
              "derived from the wiring: decidable ModeSound over the reachable activation states, proved by decide for the 15 shipped composite "
              "wirings (regenerated from the tree), modeStep_of_modeSound and the composed corollaries (JF/Props/ModeDiscipline.lean); what each "
-             "handler class commits (hkind) stays a hypothesis measured on every recorded commit (harness/modecorr.py). Dumped-and-resumed "
+             "handler class commits (hkind) stays a hypothesis measured on every recorded commit (harness/modecorr.py). JF.Props.SystemInv2: for composite "
+             "objects without a cell system ONE joint induction over the legs of the composed mediator loop (joint_inv2) discharges the mode premise and gives "
+             "c12_rootConsistent_closed2 / c07_one_chain_closed2 / c09_fresh_closed2 / c08_closed2 for every run with no cross-file hypothesis left (the step relation: "
+             "Composite.step of a kind the committing handler class commits in the mode read off the activation flags; candidate times normalised and not before "
+             "the last commit, measured by sysinvcorr.check_trace2). Dumped-and-resumed "
              "composite runs (many dumps per run) are further histories judged by the oracle.",
         technique="Lean 4 proof (invariant by induction) over a hand-written model + bit-exact replay of recorded real runs + run-level oracle",
         ref="§5 C12, §4"),
